@@ -468,3 +468,13 @@ s.ens_all("structure-unchanged", ("C05",), lambda c, A, R: z3.And(_structure_sam
 s.exc("XGIError")
 s.exc("TypeError")
 s.exc("ValueError")
+
+
+# ------------------------------------------------------------------ cleanup / copy-independent helpers
+from contracts.freeze import frozen_clauses  # noqa: E402
+
+s = std(contract(D + "cleanup", [("self", "net:DH"), ("isolates", "bool", False), ("relabel", "bool", True), ("in_place", "bool", True)]))
+s.req("in-place-no-relabel", lambda c, A: z3.And(A.in_place.term, z3.Not(A.relabel.term)), ("C02",))
+s.raises_any = True
+s.notes = "in_place=True, relabel=False path (the relabelling helper is verified for undirected hypergraphs only)"
+frozen_clauses(s)
